@@ -1766,12 +1766,12 @@ LOOP:
 					case 'A' <= c && c <= 'F':
 						r += rune(c - 'A' + 10)
 					default:
-						l.src = l.src[p:]
+						l.src, l.column = l.src[p:], l.column+cols
 						return l.errorf("invalid character %q in hexadecimal escape", c)
 					}
 				}
 				if 0xD800 <= r && r < 0xE000 || r > '\U0010FFFF' {
-					l.src = l.src[p:]
+					l.src, l.column = l.src[p:], l.column+cols
 					return l.errorf("escape is invalid Unicode code point U+%X", r)
 				}
 				p += 2 + n
@@ -1782,11 +1782,11 @@ LOOP:
 			case 'x':
 				for i := range 2 {
 					if p+2+i == len(l.src) {
-						l.src = l.src[p:]
+						l.src, l.column = l.src[p:], l.column+cols
 						return l.errorf("string not terminated")
 					}
 					if c := l.src[p+2+i]; !isHexDigit(c) {
-						l.src = l.src[p:]
+						l.src, l.column = l.src[p:], l.column+cols
 						return l.errorf("invalid character %q in hexadecimal escape", c)
 					}
 				}
@@ -1796,34 +1796,34 @@ LOOP:
 				r := rune(c - '0')
 				for i := range 2 {
 					if p+2+i == len(l.src) {
-						l.src = l.src[p:]
+						l.src, l.column = l.src[p:], l.column+cols
 						return l.errorf("string not terminated")
 					}
 					r = r * 8
 					c = l.src[p+2+i]
 					if c < '0' || c > '7' {
-						l.src = l.src[p:]
+						l.src, l.column = l.src[p:], l.column+cols
 						return l.errorf("invalid character %q in octal escape", c)
 					}
 					r += rune(c - '0')
 				}
 				if r > 255 {
-					l.src = l.src[p:]
+					l.src, l.column = l.src[p:], l.column+cols
 					return l.errorf("octal escape value %d > 255", r)
 				}
 				p += 4
 				cols += 4
 			default:
-				l.src = l.src[p:]
+				l.src, l.column = l.src[p:], l.column+cols
 				return l.errorf("unknown escape")
 			}
 		case '\n':
-			l.src = l.src[p:]
+			l.src, l.column = l.src[p:], l.column+cols
 			return l.errorf("newline in string")
 		default:
 			r, s := utf8.DecodeRune(l.src[p:])
 			if r == utf8.RuneError && s == 1 {
-				l.src = l.src[p:]
+				l.src, l.column = l.src[p:], l.column+cols
 				return l.errorf("invalid UTF-8 encoding")
 			} else if r == BOM {
 				return l.errorf(bomErrorMsg)
